@@ -208,7 +208,7 @@ def extra_runs(ctx, lib):
     cached = getattr(ctx, "_flatpass_extra", None)
     if cached is not None:
         return cached
-    n = ctx.pick(24, 200)
+    n = ctx.pick(16, 200)
     texts = []
     while len(texts) < n:
         t = _extra_text(ctx.rng)
